@@ -218,22 +218,24 @@ fn oracle_stream(spec: &str, sched: &str, ops: &str, file: &[u8], ann: &str) -> 
         if (kind == 'T' || kind == 'N' || kind == 'Y' || kind == 'D' || kind == 'V') && involves_compressed(&f) { continue; }
         if want == got { continue; }
         let exact = matches!(kind, 'Y' | 'D' | 'V' | 'P');
+        // the extended-index escape for the section-name string table is C05's clause
+        let tag = if kind == 'T' && f.ehdr.e_shstrndx == abi::SHN_XINDEX { "C05" } else { "C07" };
         let (pw, pg) = (pieces(&want), pieces(&got));
         if pw.len() != pg.len() {
-            return Err(format!("C07: `{}`: stream `{}` vs slice `{}`", q, &got[..got.len().min(200)], &want[..want.len().min(200)]));
+            return Err(format!("{}: `{}`: stream `{}` vs slice `{}`", tag, q, &got[..got.len().min(200)], &want[..want.len().min(200)]));
         }
         for (w, g) in pw.iter().zip(&pg) {
             if w == g { continue; }
             let (sw, sg) = (status(w), status(g));
             let data_piece = w.starts_with("data=");
             if sw == "ok" && sg == "ok" {
-                return Err(format!("C07: `{}`: both succeed with different content: stream `{}` slice `{}`", q, &g[..g.len().min(160)], &w[..w.len().min(160)]));
+                return Err(format!("{}: `{}`: both succeed with different content: stream `{}` slice `{}`", tag, q, &g[..g.len().min(160)], &w[..w.len().min(160)]));
             }
             if sw == "ok" && sg != "ok" {
-                return Err(format!("C07: `{}`: slice succeeds, stream fails: `{}`", q, &g[..g.len().min(160)]));
+                return Err(format!("{}: `{}`: slice succeeds, stream fails: `{}`", tag, q, &g[..g.len().min(160)]));
             }
             if (exact || data_piece) && sw != sg {
-                return Err(format!("C07: `{}`: success/failure must coincide: stream `{}` slice `{}`", q, &g[..g.len().min(160)], &w[..w.len().min(160)]));
+                return Err(format!("{}: `{}`: success/failure must coincide: stream `{}` slice `{}`", tag, q, &g[..g.len().min(160)], &w[..w.len().min(160)]));
             }
         }
     }
